@@ -214,8 +214,14 @@ theorem stakingDelegate_outT (v : ValId) (snap : SVal) (amt : Int) (b : Denom) :
   · intro _
     refine (Obs.bind (δ2 := 0) (sendCoins_outT accModule _ _ b) (fun _ => ?_)).cast ?_
     · apply Obs.getW_bind; intro w1 _
-      apply Obs.bind0 (by ot_frame); intro _
-      ot_frame
+      try dsimp only []
+      apply Obs.ite
+      · intro _
+        apply Obs.bind0 (by ot_frame); intro _
+        exact Obs.panicE _
+      · intro _
+        apply Obs.bind0 (by ot_frame); intro _
+        ot_frame
     · rw [Coins.sumOf_single, pool_module]
       have : w0.staking.bondDenom = b := hb0
       simp only [this, if_true]
